@@ -433,6 +433,27 @@ impl Pager {
         Ok(PageId::new(candidate))
     }
 
+    /// Whether the allocation bitmap marks `page_id` as in use.
+    pub(crate) fn is_page_allocated(&self, page_id: PageId) -> bool {
+        self.bitmap.is_allocated(page_id)
+    }
+
+    /// Allocates `count` consecutive pages past the end of the used area and
+    /// returns the first one.
+    pub(crate) fn allocate_contiguous(&mut self, count: u64) -> Result<PageId> {
+        let start = self.meta.next_page_id;
+        let end = start
+            .checked_add(count)
+            .filter(|end| count > 0 && *end <= BITMAP_BITS)
+            .ok_or(Error::PageIdOutOfRange(start))?;
+        for id in start..end - 1 {
+            self.bitmap.set_allocated(PageId::new(id), true);
+        }
+        // Grows the file and persists meta + bitmap for the whole run.
+        self.ensure_allocated(PageId::new(end - 1))?;
+        Ok(PageId::new(start))
+    }
+
     #[cfg_attr(nervusdb_verif, track_caller)]
     pub fn free_page(&mut self, page_id: PageId) -> Result<()> {
         #[cfg(nervusdb_verif)]
